@@ -39,6 +39,15 @@ Proof.
   - apply (proj1 (tie_cas_decide D deqD _ _)) in Ec. rewrite decide_True by exact Ec. reflexivity.
   - apply (proj1 (tie_cas_decide_conflict D deqD _ _)) in Ec. rewrite decide_False by exact Ec. reflexivity.
 Qed.
+
+(** handle_get: refusal, then the content the path names at the moment of the ONE open (the reviewed block: length, hash
+    and bytes all come from that descriptor), or "not found" *)
+Lemma tie_handle_get (t : gmap (list Z) (list Z)) (path : list Z) :
+  g_handle_get t path = seq_handle Hh cname t (SGet path) [].
+Proof.
+  unfold g_handle_get, seq_handle, safe_key. destruct (refused path); [reflexivity|].
+  cbv zeta. unfold file_at. destruct (t !! canon path); reflexivity.
+Qed.
 End Tie.
 
 Definition hub_delete_is_translation : Prop :=
@@ -46,6 +55,7 @@ Definition hub_delete_is_translation : Prop :=
          (t : gmap (list Z) (list Z)) (path : list Z) (expected : option D),
     g_handle_delete Hh t path expected = seq_handle Hh cname t (SDel path expected) [] /\
     (forall (len : Z) (hash : D) (content : list Z),
-       g_handle_put Hh cname t path expected len hash content = seq_handle Hh cname t (SPut path expected len hash) content).
+       g_handle_put Hh cname t path expected len hash content = seq_handle Hh cname t (SPut path expected len hash) content) /\
+    g_handle_get (D := D) t path = seq_handle Hh cname t (SGet path) [].
 Lemma hub_delete_is_translation_holds : hub_delete_is_translation.
-Proof. unfold hub_delete_is_translation. intros. split; [apply tie_handle_delete|intros; apply tie_handle_put]. Qed.
+Proof. unfold hub_delete_is_translation. intros. split; [apply tie_handle_delete|]. split; [intros; apply tie_handle_put|apply tie_handle_get]. Qed.
